@@ -577,6 +577,10 @@ def harnesses(tier):
         if has_origin(kinds):
             continue  # the property is about rectangles that do not contain the origin
         hs.append(Harness(f"fast2d.{'.'.join(kinds)}", h_fast_vs_general, {"d": 2, "kinds": kinds}, max_paths=500))
+    if q:  # straddling intervals with exactly one infinite end (all of them are in the thorough tier's product above)
+        for kinds in [("strinf_l", "pos"), ("neg", "strinf_r"), ("strinf_r", "neginf"), ("posinf", "strinf_l")]:
+            hs.append(Harness(f"fast2d.{'.'.join(kinds)}", h_fast_vs_general, {"d": 2, "kinds": kinds}, max_paths=500))
+        hs.append(Harness("fast3d.strinf_l.pos.neg", h_fast_vs_general, {"d": 3, "kinds": ("strinf_l", "pos", "neg")}, max_paths=2000))
     for kinds in [k for k in itertools.product(("neg", "pos", "str", "neg0", "pos0"), repeat=2) if any(x in ("neg0", "pos0") for x in k)]:
         if kinds in (("neg0", "pos0"), ("pos0", "neg0"), ("neg0", "neg0"), ("pos0", "pos0"), ("str", "neg0"), ("str", "pos0"), ("neg0", "str"), ("pos0", "str")):
             continue  # the closed rectangle touches or contains the origin
